@@ -205,6 +205,8 @@ def c06(tier, seed):
     obs.append(K("c06::c06_interpolate_t2", cap=300, to_case=interp_cases, must_cover=["reached"],
                  claim="interpolate == textbook Lagrange value at 0 (reference model in the harness) for all distinct points and all values",
                  bounds="t = 2, GF(13)", stubs=SF, functions=["interpolate"]))
+    obs.append(K("c06::c06_interpolate_t1", cap=300, to_case=interp_cases, must_cover=["reached"],
+                 claim="interpolate of a single share is its own value (threshold 1)", bounds="t = 1, GF(13)", stubs=SF, functions=["interpolate"]))
     obs.append(K("c06::c06_interpolate_t3", cap=600, tier="q", to_case=interp_cases, must_cover=["reached"],
                  claim="interpolate == textbook Lagrange value at 0 for all distinct points and all values",
                  bounds="t = 3, GF(13)", stubs=SF, functions=["interpolate"]))
@@ -415,21 +417,23 @@ def c16(tier, seed):
         obs.append(K("c16b::" + h, tier=q, cap=600, must_cover=["reached"],
                      claim="share(): everything except the point and the values at it is computed before the single OS draw, hence a deterministic function of (threshold, message, coins); exactly t-1 coefficient draws from the transcript-seeded RNG; J = MAC output over (A, M, R), C = M xor keystream(K), D = R xor keystream(K, C); every permutation call is chained (capacity lanes) to its Strobe object: J, K and then every coefficient draw continue the one transcript that absorbed A, M, R; for t = 1 the value is K||0",
                      bounds="|M|=%d |R|=%d t=%d, all contents" % (ml, rl, t), stubs=ADSS, functions=["adss::Commune::share", "adss::Share::to_bytes", "StrobeRng", "Sharks::dealer_rng", "Evaluator::gen"], to_case=tc))
-    for h, (ml, rl), q in (("c16_recover_t1_m1_r1", (1, 1), "t"), ("c16_recover_t1_m4_r0", (4, 0), "t"), ("c16_recover_t1_m0_r4", (0, 4), "t")):
+    for h, (ml, rl), q in (("c16_recover_t1_m1_r1", (1, 1), "t"), ("c16_recover_t1_m4_r0", (4, 0), "t"), ("c16_recover_t1_m0_r4", (0, 4), "q")):
         def tc(o, info, ml=ml, rl=rl):
             v = lay(info, [("m", 8), ("r", 8)])
             return [{"kind": "adss_scenario", "m": v["m"][:ml].hex(), "r": v["r"][:rl].hex(), "t": 1, "n_shares": 1, "expect_ok": True}] if v else []
-        obs.append(K("c16b::" + h, tier=q, cap=2400, mem=50, must_cover=["reached"],
-                     claim="threshold 1: share -> recover returns exactly the message (decrypt with the interpolated key, MAC re-verified)",
-                     bounds="|M|=%d |R|=%d" % (ml, rl), stubs=ADSS + ["Sharks::recover by its Engine-M-proved selection model (BTreeSet is beyond CBMC)"],
-                     functions=["adss::recover", "adss::Commune::verify", "interpolate"], to_case=tc))
-    obs.append(K("c16b::c16_custom_transcript_rejected", tier="t", cap=2400, mem=50, must_cover=["reached"],
+        obs.append(K("c16b::" + h, tier=q, cap=2400, mem=30, must_cover=["reached"],
+                     claim="threshold 1: share -> recover returns exactly the message (decrypt with the key the Shamir layer hands back, MAC re-verified)",
+                     bounds="|M|=%d |R|=%d" % (ml, rl), stubs=ADSS + ["Sharks::recover -> the honest key K||0 read from the permutation log (a t = 1 share carries K||0: c16_structure_*_t1; the Shamir layer returns the selected share's value at t = 1: mir::recover-structure + c06_interpolate_t1)"],
+                     functions=["adss::recover", "adss::Commune::verify"], to_case=tc))
+    obs.append(K("c16b::c16_custom_transcript_rejected", tier="q", cap=2400, mem=30, must_cover=["reached"],
                  claim="a share created under a different authenticated transcript is rejected by recover",
-                 bounds="|M|=|R|=2, t=1", stubs=ADSS, functions=["adss::recover"],
+                 bounds="|M|=|R|=2, t=1", stubs=ADSS + ["Sharks::recover -> the honest key of the sharing (the strongest case for acceptance)"], functions=["adss::recover"],
                  to_case=lambda o, info: adss_case(o, info, [("m", 2), ("r", 2)], t=1, n_shares=1, custom_transcript=True)))
     obs.append(K("c16b::c16_threshold_zero", tier="q", cap=900, must_cover=["reached"],
                  claim="threshold 0 never recovers (refused before any decryption)", bounds="|M|=|R|=2", stubs=ADSS, functions=["adss::recover", "interpolate"],
                  to_case=lambda o, info: adss_case(o, info, [("m", 2)], t=0, n_shares=1)))
+    obs.append(K("c06::c06_interpolate_t1", cap=300, must_cover=["reached"], to_case=interp_cases,
+                 claim="the Shamir layer at threshold 1: interpolating the single selected share returns its own value (so the key handed back is the K||0 the share carries)", bounds="t = 1, GF(13)", stubs=SF, functions=["interpolate"]))
     obs.append(M("mir::recover-structure", "Sharks::recover selection logic (see C06): any t shares with distinct points are what interpolation receives, independent of order/duplicates/surplus",
                  bounds="n <= 3/4, symbolic points"))
     obs.append(M("native::c16-scenarios", "concrete cross-check on the natively compiled crates (not a solver query; produces replayable counterexamples when a change rewrites code into a shape the symbolic engines refuse): messages / coins of 0..300 bytes, t = 1..3 with exactly t and t+2 shares: wire round trip, recovery returns M; threshold 0 and foreign transcripts refused; three independent invocations of one t = 2 sharing are collinear, the slope is non-zero and differs when one message or coin byte differs", bounds="concrete"))
@@ -505,6 +509,10 @@ def c02(tier, seed):
                  bounds="secrets of 1 and 2 elements; the first 4 (quick) / 8 (thorough) loop iterations are explored, the continuing path is cut and shown to need T > iterations; from_repr opaque (accepting), Fp::random = n-th opaque draw",
                  functions=["Sharks::dealer_rng", "random_polynomial"]))
     obs.append(M("native::c06-dealer-gen", "concrete cross-check on the natively compiled crates (not a solver query; produces replayable counterexamples when a change rewrites code into a shape the symbolic engines refuse): dealing with thresholds around 2^8 and 2^16 draws 3(t-1) source words per element (degree t-1 at full threshold width)", bounds="concrete"))
+    obs.append(K("c04::c04_inject_1_1_1_1", tier="q", cap=400, must_cover=[],
+                 claim="reports made under a different threshold (any other u32 value, also one that agrees in its low byte) or epoch belong to a different sharing: their randomness - hence r0, tag and key - differs, so they cannot be mixed in to reach a measurement's threshold",
+                 bounds="see C04", stubs=STROBE, functions=["MessageGenerator::sample_local_randomness"]))
+    obs.append(M("native::c04-triples", NAT + "thresholds 1, 2, 257, 65537, 2^32-1 and 258 vs 2 give different randomness, tag and key", bounds="concrete"))
     return {
         "obligations": obs, "level": "model_checking",
         "bounds": "n <= 4 shares, thresholds <= 4 (and 256/257 for the draw count), 2-byte messages",
@@ -586,10 +594,13 @@ def c01(tier, seed):
             if v[k] not in xs:
                 xs.append(v[k])
             sel.append(xs.index(v[k]))
-        return [{"kind": "star_e2e", "m": "6d6561", "e": "6531", "t": int.from_bytes(v["t"], "little"),
+        return [{"kind": "star_e2e", "m": "6d6561", "e": "6531", "t": 2 if o["harness"].endswith("_t2") else int.from_bytes(v["t"], "little"),
                  "aux": [None] * len(xs), "selection": sel}] + \
                [{"kind": "adss_mixed", "ma": "0a0b", "ra": "01", "mb": "0c0d0e", "rb": "02", "t": t, "rounds": 8} for t in (1, 2)]
-    obs.append(K("c16b::c01_selection_reaches_shamir_3", cap=300, must_cover=["repeat first", "surplus", "too few"], to_case=sel_case,
+    obs.append(K("c16b::c01_selection_reaches_shamir_3_t2", cap=300, must_cover=["repeat first", "surplus", "too few"], to_case=sel_case,
+                 claim="as below with the first share's threshold fixed to 2 (loops over the threshold stay concrete: this variant still decides code that iterates threshold-many times)",
+                 bounds="3 shares, arbitrary points, t = 2", functions=["adss::recover"], stubs=["Sharks::recover -> recorder", "Drop impls -> no-op"]))
+    obs.append(K("c16b::c01_selection_reaches_shamir_3", cap=300, mem=16, must_cover=["repeat first", "surplus", "too few"], to_case=sel_case,
                  claim="adss::recover consults the Shamir layer with the first share's threshold t and hands it at least min(t, #distinct) distinct points of the selection: repeated or surplus reports never crowd out a distinct share",
                  bounds="3 shares, arbitrary points (every equality pattern and order), t in 1..=3, other thresholds arbitrary",
                  functions=["adss::recover"], stubs=["Sharks::recover -> recorder (threshold, #points, #distinct points), then refuses", "Drop impls -> no-op"]))
@@ -609,7 +620,7 @@ def c01(tier, seed):
     obs.append(K("c06::c06_interpolate_t2", cap=300, must_cover=["reached"], claim="interpolation of t distinct points is the Lagrange value at 0", bounds="t=2, GF(13)", stubs=SF))
     obs.append(K("c06::c06_interpolate_t3", cap=600, tier="t", must_cover=["reached"], claim="as above", bounds="t=3, GF(13)", stubs=SF))
     for h in ("c16_recover_t1_m1_r1",):
-        obs.append(K("c16b::" + h, tier="t", cap=2400, mem=50, must_cover=["reached"], claim="threshold 1: share -> recover returns exactly the message", bounds="see C16", stubs=ADSS))
+        obs.append(K("c16b::" + h, tier="t", cap=2400, mem=30, must_cover=["reached"], claim="threshold 1: share -> recover returns exactly the message", bounds="see C16", stubs=ADSS))
     obs.append(M("native::e2e-scenarios", "concrete cross-check on the natively compiled crates (not a solver query): n = 5 clients, t in {1,2,3}, measurements of 0/1/3/300 bytes, epochs empty/non-empty, associated data none/empty/short/200 bytes, selections with repeats, surplus, permutations and sub-threshold sets: every report survives the wire, recovery succeeds iff the selection holds t distinct shares, every selected report decrypts to exactly (measurement, aux or absence)",
                  bounds="the listed scenario family (every third scenario in quick)"))
     return {
